@@ -127,3 +127,45 @@ Example agree_nonvacuous :
   let st' := fst (run cfg_pinned [leaf_model 0 1; leaf_model 2 3; OSet 1 "a" (VConst 7)] init) in
   quiet st st' /\ comp_at st' 1 <> comp_at st 1.
 Proof. split; [apply quietb_sound; vm_compute; reflexivity|vm_compute; discriminate]. Qed.
+
+(* two different guarded histories with the same final composition (hypotheses of C13_history_independent) *)
+Definition h_a : list op := [leaf_model 0 1; OFreeze 0; OQuery 0 QCount; OQuery 0 QInfo; OUnfreeze 0; OFreeze 0].
+Definition h_b : list op := [leaf_model 0 1].
+Example history_independent_hypotheses :
+  guarded cfg_pinned h_a init /\ guarded cfg_pinned h_b init /\
+  fresh (fst (run cfg_pinned h_a init)) = fresh (fst (run cfg_pinned h_b init)) /\
+  fst (run cfg_pinned h_a init) <> fst (run cfg_pinned h_b init).
+Proof.
+  split; [apply guardedb_sound; vm_compute; reflexivity|].
+  split; [apply guardedb_sound; vm_compute; reflexivity|].
+  split; [vm_compute; reflexivity|vm_compute; discriminate].
+Qed.
+
+(* hypotheses of C13_reflects_changes: an unfrozen collection *)
+Example reflects_changes_hypotheses :
+  let st := fst (run cfg_pinned [leaf_model 0 1; ONew KColl [("m", VRef 0)] 0] init) in
+  exists ob, get st 1 = Some ob /\ okind ob = KColl /\ ofrozen ob = false.
+Proof. eexists. split; [vm_compute; reflexivity|]. split; reflexivity. Qed.
+
+(* hypotheses of C13_other_models_irrelevant: two states that differ (another live model was
+   modified) and agree on everything reachable from object 2 *)
+Example other_models_hypotheses :
+  let st := fst (run cfg_pinned [leaf_model 0 1; leaf_model 2 3; ONew KColl [("m", VRef 0)] 0] init) in
+  let st' := fst (run cfg_pinned [leaf_model 0 1; leaf_model 2 3; ONew KColl [("m", VRef 0)] 0; OSet 1 "a" (VConst 7)] init) in
+  agree st st' 2 /\ inflight st' = inflight st /\ st' <> st.
+Proof.
+  split; [|split; [reflexivity|vm_compute; discriminate]].
+  intros t R. apply comp_eqb_eq.
+  assert (C : closedb (fst (run cfg_pinned [leaf_model 0 1; leaf_model 2 3; ONew KColl [("m", VRef 0)] 0] init)) [2; 0] = true)
+    by (vm_compute; reflexivity).
+  pose proof (Reach_closed _ _ C 2 t R (or_introl eq_refl)) as Hin.
+  destruct Hin as [<-|[<-|[]]]; vm_compute; reflexivity.
+Qed.
+
+(* models_with_type goes through two more cached functions; a frozen history that uses them *)
+Example models_query_cached :
+  snd (run cfg_pinned [leaf_model 0 1; ONew (KModel 3) [("x", VConst 1)] 0; ONew KColl [("m", VRef 0); ("n", VRef 1)] 0;
+                       OFreeze 2; OQuery 2 (QModels None false); OQuery 2 (QModels None true); OQuery 2 (QModels (Some 3) true)] init)
+  = [Ok AUnit; Ok AUnit; Ok AUnit; Ok AUnit; Ok (AItems [([], LObj 0)]); Ok (AItems [([], LObj 0); ([], LObj 1)]);
+     Ok (AItems [([], LObj 1)])].
+Proof. vm_compute. reflexivity. Qed.
